@@ -58,8 +58,9 @@ def build_harness():
 # ------------------------------------------------------------------ program generator
 
 SRC_MAXLEN = {"vec": 3, "iter": 3, "iterx": 3, "slice": 2, "range": 2, "inf": 2, "deque": 1, "list": 1, "btree": 1,
-              "vecadv": 2, "dequeref": 1, "btreeref": 1}
-HIDDEN_CONV = ("slice", "range", "dequeref", "btreeref")
+              "vecadv": 2, "dequeref": 1, "btreeref": 1, "hashset": 1, "hashsetref": 1, "heap": 1, "heapref": 1, "listref": 1}
+HIDDEN_CONV = ("slice", "range", "dequeref", "btreeref", "hashsetref", "heapref", "listref")
+UNORDERED_SRC = ("hashset", "hashsetref", "heap", "heapref")   # iteration order known only from the instance
 CORE_TERMS = ["none", "collect_vec", "collect", "collect_into", "collect_x", "count", "for_each", "reduce", "find", "first", "any", "all"]
 FULL_ONLY = ["fold", "sum", "min", "max", "min_by", "max_by", "min_by_key", "max_by_key"]
 EARLY = ["find", "first", "any", "all"]
@@ -75,7 +76,7 @@ def full_ok(src, shape):
 
 
 def idx_ok(src, shape):
-    return src != "inf" and re.fullmatch(r"m*f*", shape) is not None
+    return src != "inf" and src not in UNORDERED_SRC and re.fullmatch(r"m*f*", shape) is not None
 
 
 def term_ok(src, shape, k, tk=""):
@@ -151,7 +152,8 @@ def gen_input(rng, src, n):
 
 
 def gen_prog(rng, src=None, shape=None, n=None, term=None, nt="rand", cs="rand", param_slots="first",
-             sources=("vec", "iter", "iterx", "slice", "range", "deque", "list", "btree", "vecadv", "dequeref", "btreeref"),
+             sources=("vec", "iter", "iterx", "slice", "range", "deque", "list", "btree", "vecadv", "dequeref", "btreeref",
+                      "hashset", "hashsetref", "heap", "heapref", "listref"),
              sizes=(0, 1, 2, 3, 5, 8, 13, 24, 40), maxlen=3):
     src = src or rng.choice(sources)
     if n is None:
